@@ -263,7 +263,12 @@ struct VecDriver {
         if constexpr (watched) {
             reg().mark_harness_held();
         }
+        uint64_t const userCallsBefore = g_user_calls != nullptr ? g_user_calls() : 0;
         auto out = guarded(true, static_cast<F&&>(f));
+        if (out == Outcome::trapped && expectTrap && !late && g_trap.userCalls != userCallsBefore) {
+            // the violation is visible from the arguments alone: the handler has to run before any user code does
+            ctx.violation("C05", "contract:user-code-before-handler", "an element constructor / assignment ran before the handler was entered at " + trap_site());
+        }
         if (expectTrap && !arena_guards_ok(s)) {
             // damage done by a precondition-violating call belongs to the contract property
             ctx.violation("C05", "contract:damage-before-handler:guard", "memory outside the object was written by a precondition-violating call");
@@ -1278,15 +1283,16 @@ struct VecDriver {
                         viaFront = how == 1 || how == 3;
                         viaBack  = how == 2;
                     }
+                    T wtmp = mk(val); // built before the call: no user code of the harness runs between the call and the handler
                     bool ok = call(a, bad, false, [&] {
                         if (viaFront) {
-                            v.front() = mk(val);
+                            v.front() = static_cast<T&&>(wtmp);
                         } else if (viaBack) {
-                            v.back() = mk(val);
+                            v.back() = static_cast<T&&>(wtmp);
                         } else if (viaIter) {
-                            *(v.begin() + static_cast<long>(idx)) = mk(val);
+                            *(v.begin() + static_cast<long>(idx)) = static_cast<T&&>(wtmp);
                         } else {
-                            v[idx] = mk(val);
+                            v[idx] = static_cast<T&&>(wtmp);
                         }
                     });
                     if (ok) {
@@ -1603,13 +1609,14 @@ struct VecDriver {
                         ctx.log.kv("idx", static_cast<long long>(idx));
                         ctx.log.kv("how", how);
                         ctx.log.kv("v", val);
-                        bool ok = call(a, bad, false, [&] {
+                        T wtmp = mk(val); // built before the call: no user code of the harness runs between the call and the handler
+                    bool ok = call(a, bad, false, [&] {
                             if (how == 1) {
-                                v.front() = mk(val);
+                                v.front() = static_cast<T&&>(wtmp);
                             } else if (how == 2) {
-                                v.back() = mk(val);
+                                v.back() = static_cast<T&&>(wtmp);
                             } else {
-                                v[idx] = mk(val);
+                                v[idx] = static_cast<T&&>(wtmp);
                             }
                         });
                         if (ok) {
@@ -1982,7 +1989,7 @@ struct StackDriver : DriverBase<StackDriver<T, N>> {
                 } else if (op == "push_move") {
                     v.push(static_cast<T&&>(tmp));
                 } else {
-                    v.emplace(VecDriver<C, T, N, VK::static_vec>::mk(val));
+                    v.emplace(VecDriver<C, T, N, VK::static_vec>::earg(val)); // in-place construction from the argument
                 }
             });
             if (ok) {
@@ -2010,7 +2017,8 @@ struct StackDriver : DriverBase<StackDriver<T, N>> {
                 skip();
                 return;
             }
-            bool ok = call(a, empty, false, [&] { v.top() = VecDriver<C, T, N, VK::static_vec>::mk(val); });
+            T wtmp  = VecDriver<C, T, N, VK::static_vec>::mk(val);
+            bool ok = call(a, empty, false, [&] { v.top() = static_cast<T&&>(wtmp); });
             if (ok) {
                 m.back() = val;
                 ++ctx.stateChanging;
